@@ -438,6 +438,7 @@ BASE_MODELS = [
     (r"^std::result::Result::<.*>::is_ok$|^std::result::Result::<.*>::is_err$", m_res_is_ok),
     (r"as std::clone::Clone>::clone$", m_clone),
     (r"^<I as std::iter::IntoIterator>::into_iter$", m_identity),
+    (r"^<std::string::String as std::ops::Deref>::deref$|^<std::vec::Vec<.*> as std::ops::Deref>::deref$", m_identity),
     (r"as std::cmp::PartialOrd<log::LevelFilter>>::le$", m_log_disabled),
     (r"^log::max_level$", m_log_max_level),
     (r"as std::ops::Deref>::deref$", None),
